@@ -363,6 +363,14 @@ FM_Leaves == <<[p |-> pA, vals |-> {I(3)}, extra |-> FALSE],
                [p |-> pSX, vals |-> {I(4)}, extra |-> FALSE],
                [p |-> pB, vals |-> {I(2)}, extra |-> FALSE]>>
 
+\* family "cases" (C05, C12): case-when with constant and option-dependent, possibly raising predicates
+FCS_Kinds == {"val", "opt", "pred", "case"}
+FCS_Paths == {pA, pB}
+FCS_Consts == {I(1), Str("x")}
+FCS_Preds == {"eq", "truthy", "raise"}
+FCS_Leaves == <<[p |-> pA, vals |-> {I(0), I(1), Str("x")}, extra |-> FALSE],
+                [p |-> pB, vals |-> {I(1), I(2)}, extra |-> FALSE]>>
+
 \* family "siblings" (C01, C08): derivatives of one dataset with different pre-set / default options
 FS_Kinds == {"opt", "fnapp", "ds", "dsof", "coll"}
 FS_Paths == {pA, pSX}
